@@ -128,6 +128,42 @@ class VArr:
         self.arr = arr
 
 
+class VArr2:
+    """mutable list of lists of ints: length, row lengths (Array Int Int), rows (Array Int (Array Int Int))"""
+
+    def __init__(self, length, rowlen, rows):
+        self.length, self.rowlen, self.rows = length, rowlen, rows
+
+
+class VRow:
+    """a view on row `i` of a VArr2 (aliasing: mutation goes to the parent)"""
+
+    def __init__(self, parent, i):
+        self.parent, self.i = parent, i
+
+    @property
+    def length(self):
+        return z3.Select(self.parent.rowlen, self.i)
+
+    @property
+    def arr(self):
+        return z3.Select(self.parent.rows, self.i)
+
+
+class VSet2:
+    """mutable set of pairs of ints: characteristic array (Int, Int) -> Bool"""
+
+    def __init__(self, arr):
+        self.arr = arr
+
+
+class VFun2:
+    """ghost function (Int, Int) -> Int"""
+
+    def __init__(self, arr):
+        self.arr = arr
+
+
 class VRange:
     def __init__(self, lo, hi, step=1):
         self.lo, self.hi, self.step = lo, hi, step
@@ -383,6 +419,15 @@ class Engine:
             L = self.fresh(base + '_len')
             self.assume(L >= 0)
             return VArr(L, self.fresh(base + '_arr', z3.ArraySort(z3.IntSort(), z3.IntSort())))
+        if ty == 'intlist2':
+            L = self.fresh(base + '_len')
+            self.assume(L >= 0)
+            I = z3.IntSort()
+            return VArr2(L, self.fresh(base + '_rowlen', z3.ArraySort(I, I)), self.fresh(base + '_rows', z3.ArraySort(I, z3.ArraySort(I, I))))
+        if ty == 'pairset':
+            return VSet2(self.fresh(base, z3.ArraySort(z3.IntSort(), z3.IntSort(), z3.BoolSort())))
+        if ty == 'ghostfun2':
+            return VFun2(self.fresh(base, z3.ArraySort(z3.IntSort(), z3.IntSort(), z3.IntSort())))
         if ty == 'none':
             return None
         if ty == 'opaque':
@@ -543,6 +588,12 @@ class Engine:
             return VMList(v.term)
         if isinstance(v, VArr):
             return VArr(v.length, v.arr)
+        if isinstance(v, VArr2):
+            return VArr2(v.length, v.rowlen, v.rows)
+        if isinstance(v, VSet2):
+            return VSet2(v.arr)
+        if isinstance(v, VFun2):
+            return VFun2(v.arr)
         if isinstance(v, VTerms):
             return VTerms(v.term)
         if isinstance(v, VCon):
@@ -609,6 +660,20 @@ class Engine:
     def exec_block(self, stmts, env):
         for s in stmts:
             self.exec_stmt(s, env)
+            gc = self.frames[-1]['contract'].get('ghost_code') if self.frames else None
+            if gc:
+                src = ast.unparse(s)
+                for anchor, code in gc:
+                    if anchor == src:
+                        self.frames[-1].setdefault('ghost_hit', set()).add(anchor)
+                        saved = getattr(self, 'in_spec', False)
+                        self.in_spec = True
+                        try:
+                            for st in ast.parse(code).body:
+                                v = self.eval(st.value, env)
+                                self.assign(st.targets[0], v, env)
+                        finally:
+                            self.in_spec = saved
 
     def exec_stmt(self, s, env):
         if isinstance(s, ast.Expr):
@@ -798,6 +863,15 @@ class Engine:
             return v
         if isinstance(v, VTerms):
             v.term = self.fresh(name, specs.TSeq)
+            return v
+        if isinstance(v, VArr2):
+            v.length = self.fresh(name + '_len')
+            self.pc.append(v.length >= 0)
+            v.rowlen = self.fresh(name + '_rowlen', v.rowlen.sort())
+            v.rows = self.fresh(name + '_rows', v.rows.sort())
+            return v
+        if isinstance(v, (VSet2, VFun2)):
+            v.arr = self.fresh(name, v.arr.sort())
             return v
         if v is UNBOUND:
             return self.fresh(name)
@@ -1162,6 +1236,12 @@ class Engine:
         if isinstance(a, VSeq) and isinstance(b, VSeq) and isinstance(op, (ast.Eq, ast.NotEq)):
             r = a.term == b.term
             return r if isinstance(op, ast.Eq) else z3.Not(r)
+        if isinstance(a, VArr2) and isinstance(b, VArr2) and isinstance(op, (ast.Eq, ast.NotEq)):
+            r = z3.And(toz(a.length) == toz(b.length), a.rowlen == b.rowlen, a.rows == b.rows)
+            return r if isinstance(op, ast.Eq) else z3.Not(r)
+        if isinstance(a, (VSet2, VFun2)) and type(a) is type(b) and isinstance(op, (ast.Eq, ast.NotEq)):
+            r = a.arr == b.arr
+            return r if isinstance(op, ast.Eq) else z3.Not(r)
         if isinstance(a, VTerms) and isinstance(b, VTerms) and isinstance(op, (ast.Eq, ast.NotEq)):
             r = a.term == b.term
             return r if isinstance(op, ast.Eq) else z3.Not(r)
@@ -1202,6 +1282,8 @@ class Engine:
             if isinstance(x, int) and x == 0:
                 return specs.haszero(container.term)
             raise Unsupported('membership in abstract sequence')
+        if isinstance(container, VSet2) and isinstance(x, VTuple) and len(x.items) == 2:
+            return z3.Select(container.arr, toz(x.items[0]), toz(x.items[1]))
         if isinstance(container, VObj):
             r = self.call_method(container, '__contains__', [x], {}, node)
             return as_bool(r)
@@ -1216,7 +1298,7 @@ class Engine:
                 r = o.fields[e.attr[:-3]]
                 return toz(r.lo) if e.attr.endswith('_lo') else toz(r.hi)
             return ('method', o, e.attr)
-        if isinstance(o, (VTuple, VMList, VArr, VSeq, VOpaque)) or isinstance(o, str):
+        if isinstance(o, (VTuple, VMList, VArr, VSeq, VOpaque, VArr2, VRow, VSet2)) or isinstance(o, str):
             return ('method', o, e.attr)
         if isinstance(o, tuple) and o[0] == 'global':
             return ('global', o[1] + '.' + e.attr)
@@ -1263,6 +1345,15 @@ class Engine:
             if getattr(self, 'in_spec', False):
                 return get(toz(idx))
             return get(self.norm_index(idx, L, e))
+        if isinstance(base, VArr2):
+            i = toz(idx) if getattr(self, 'in_spec', False) else self.norm_index(idx, base.length, e)
+            return VRow(base, i)
+        if isinstance(base, VRow):
+            if getattr(self, 'in_spec', False):
+                return z3.Select(base.arr, toz(idx))
+            return z3.Select(base.arr, self.norm_index(idx, base.length, e))
+        if isinstance(base, VFun2) and isinstance(idx, VTuple) and len(idx.items) == 2:
+            return z3.Select(base.arr, toz(idx.items[0]), toz(idx.items[1]))
         if isinstance(base, VTerms):
             i = toz(idx) if getattr(self, 'in_spec', False) else self.norm_index(idx, specs.tlen(base.term), e)
             return VTuple([specs.tcoef(base.term, i), specs.tlit(base.term, i)], 'tuple')
@@ -1756,6 +1847,19 @@ class SpecError(Exception):
     pass
 
 
+def sf_lam2(eng, node, env):
+    """lam2(lambda x, w: expr) -> ghost function value"""
+    lam = node.args[0]
+    x, w = [z3.Int('lam!{}!{}'.format(a.arg, node.lineno)) for a in lam.args.args]
+    e2 = dict(env)
+    e2[lam.args.args[0].arg], e2[lam.args.args[1].arg] = x, w
+    body = eng.eval(lam.body, e2)
+    return VFun2(z3.Lambda([x, w], toz(body)))
+
+
+sf_lam2.raw = True
+
+
 def sf_implies(eng, node, a, b):
     a, b = as_bool(a), as_bool(b)
     if a is False or b is True:
@@ -1768,7 +1872,8 @@ def sf_implies(eng, node, a, b):
 def sf_forall_int(eng, node, env):
     """forall(lambda i: body) over ints"""
     lam = node.args[0]
-    vs = [z3.Int('q!{}!{}'.format(a.arg, node.lineno)) for a in lam.args.args]
+    eng.qcount = getattr(eng, 'qcount', 0) + 1
+    vs = [z3.Int('q!{}!{}'.format(a.arg, eng.qcount)) for a in lam.args.args]
     e2 = dict(env)
     for a, v in zip(lam.args.args, vs):
         e2[a.arg] = v
@@ -1792,6 +1897,7 @@ def _wrap(fn, ret=None):
 
 SPEC_FUNCS = {
     'old': sf_old, 'implies': sf_implies, 'forall': sf_forall_int, 'created': sf_created,
+    'lam2': sf_lam2, 'card2': lambda eng, node, st: specs.card2(st.arr),
     'm_complete': _wrap(specs.m_complete), 'm_functional': _wrap(specs.m_functional),
     'm_surjective': _wrap(specs.m_surjective), 'm_injective': _wrap(specs.m_injective),
     'm_nondecreasing': _wrap(specs.m_nondecreasing), 'bitlen': _wrap(specs.bitlen),
@@ -1838,6 +1944,10 @@ def b_len(eng, node, v):
     if isinstance(v, (VSeq, VMList)):
         return {'ISeq': specs.ilen, 'CSeq': specs.clen, 'OSeq': specs.olen}[v.term.sort().name()](v.term)
     if isinstance(v, VArr):
+        return v.length
+    if isinstance(v, VRow):
+        return v.length
+    if isinstance(v, VArr2):
         return v.length
     if isinstance(v, VTerms):
         return specs.tlen(v.term)
@@ -2047,5 +2157,82 @@ def lm_pop(eng, node, o, *a):
     raise Unsupported('pop')
 
 
-LIST_METHODS = {('VTuple', 'append'): lm_append, ('VMList', 'append'): lm_append, ('VArr', 'append'): lm_append,
+def _fresh_row(eng):
+    return eng.fresh('row', z3.ArraySort(z3.IntSort(), z3.IntSort()))
+
+
+def lm_row_insert(eng, node, row, pos, x):
+    p, n, old = toz(pos), row.length, row.arr
+    eng.oblige('hazard', 'insert position within [0, len] (modelled range of list.insert)', z3.And(p >= 0, p <= n), node.lineno)
+    new = _fresh_row(eng)
+    k = z3.Int('k!ins')
+    eng.pc.append(z3.ForAll([k], z3.Implies(z3.And(0 <= k, k < p), z3.Select(new, k) == z3.Select(old, k))))
+    eng.pc.append(z3.Select(new, p) == toz(x))
+    eng.pc.append(z3.ForAll([k], z3.Implies(z3.And(p < k, k <= n), z3.Select(new, k) == z3.Select(old, k - 1))))
+    par = row.parent
+    par.rows = z3.Store(par.rows, row.i, new)
+    par.rowlen = z3.Store(par.rowlen, row.i, n + 1)
+    return None
+
+
+def lm_row_remove(eng, node, row, x):
+    """list.remove(x): removes the FIRST occurrence; ValueError if absent"""
+    n, old = row.length, row.arr
+    r = eng.fresh('rmpos')
+    k = z3.Int('k!rm')
+    present = z3.Exists([k], z3.And(0 <= k, k < n, z3.Select(old, k) == toz(x)))
+    if eng.branch(z3.Not(present)):
+        eng.oblige('hazard', 'list.remove(x): x is in the list', False, node.lineno)
+        raise PyExc('ValueError', node.lineno)
+    eng.pc.append(z3.And(0 <= r, r < n, z3.Select(old, r) == toz(x)))
+    eng.pc.append(z3.ForAll([k], z3.Implies(z3.And(0 <= k, k < r), z3.Select(old, k) != toz(x))))
+    new = _fresh_row(eng)
+    eng.pc.append(z3.ForAll([k], z3.Implies(z3.And(0 <= k, k < r), z3.Select(new, k) == z3.Select(old, k))))
+    eng.pc.append(z3.ForAll([k], z3.Implies(z3.And(r <= k, k < n - 1), z3.Select(new, k) == z3.Select(old, k + 1))))
+    par = row.parent
+    par.rows = z3.Store(par.rows, row.i, new)
+    par.rowlen = z3.Store(par.rowlen, row.i, n - 1)
+    eng.last_remove_pos = r
+    return None
+
+
+def lm_arr2_append(eng, node, a2, x):
+    if isinstance(x, VTuple) and not x.items:
+        a2.rowlen = z3.Store(a2.rowlen, a2.length, z3.IntVal(0))
+        a2.length = a2.length + 1
+        return None
+    raise Unsupported('append of a non-empty row')
+
+
+def lm_set_add(eng, node, st, x):
+    a, b = eng.unpack(x, 2, node)
+    st.arr = z3.Store(st.arr, toz(a), toz(b), z3.BoolVal(True))
+    return None
+
+
+def lm_set_remove(eng, node, st, x):
+    a, b = eng.unpack(x, 2, node)
+    eng.oblige('hazard', 'set.remove(x): x is in the set (KeyError)', z3.Select(st.arr, toz(a), toz(b)), node.lineno)
+    st.arr = z3.Store(st.arr, toz(a), toz(b), z3.BoolVal(False))
+    return None
+
+
+def lib_bisect_right(eng, node, row, x):
+    if not isinstance(row, (VRow, VArr)):
+        raise Unsupported('bisect_right on {!r}'.format(row))
+    n, a = row.length, row.arr
+    pos = eng.fresh('bisect')
+    k, j = z3.Int('k!bs'), z3.Int('j!bs')
+    eng.pc.append(z3.And(0 <= pos, pos <= n))
+    srt = z3.ForAll([k, j], z3.Implies(z3.And(0 <= k, k < j, j < n), z3.Select(a, k) <= z3.Select(a, j)))
+    # contract of bisect.bisect_right on a SORTED list: everything before pos is <= x, everything from pos on is > x
+    eng.pc.append(z3.Implies(srt, z3.And(
+        z3.ForAll([k], z3.Implies(z3.And(0 <= k, k < pos), z3.Select(a, k) <= toz(x))),
+        z3.ForAll([k], z3.Implies(z3.And(pos <= k, k < n), z3.Select(a, k) > toz(x))))))
+    return pos
+
+
+LIBRARY['bisect.bisect_right'] = lib_bisect_right
+LIST_METHODS = {('VRow', 'insert'): lm_row_insert, ('VRow', 'remove'): lm_row_remove, ('VArr2', 'append'): lm_arr2_append,
+                ('VSet2', 'add'): lm_set_add, ('VSet2', 'remove'): lm_set_remove,('VTuple', 'append'): lm_append, ('VMList', 'append'): lm_append, ('VArr', 'append'): lm_append,
                 ('VTuple', 'pop'): lm_pop, ('VArr', 'pop'): lm_pop}
